@@ -824,6 +824,119 @@ run_aioset(void *arg)
 	vh_fini();
 }
 
+// ---- a context with a send AND a receive pending at the moment it (or its socket) is closed ------------------
+// REP / RESPONDENT socket with two contexts and a raw peer that never reads: context 1 answers with 2 MB (the
+// connection stays busy writing it), context 2's answer waits behind it, context 2 also enters its next
+// receive.  Then context 2, or the whole socket, is closed (by the harness thread or racing a second thread
+// that cancels nothing but looks at the handles): both operations of context 2 complete, once each.
+static struct {
+	nng_aio *aio;
+	int      ncb, res;
+} CB[4];
+static void
+cb_cb(void *arg)
+{
+	int i = (int) (intptr_t) arg;
+	CB[i].ncb++;
+	CB[i].res = nng_aio_result(CB[i].aio);
+}
+static nng_ctx    cb_ctx[2];
+static nng_socket cb_sock;
+static void *
+t_cb_closer(void *a)
+{
+	if ((intptr_t) a == 0)
+		nng_ctx_close(cb_ctx[1]);
+	else
+		nng_socket_close(cb_sock);
+	return NULL;
+}
+static void
+run_ctxboth(void *arg)
+{
+	int resp = (int) (intptr_t) arg & 1;
+	int what = vs_choose(VK_ENV, 2); // 0 close the context, 1 close the socket
+	vh_init(1);
+	nng_listener l;
+	VH_OK(resp ? nng_respondent0_open(&cb_sock) : nng_rep0_open(&cb_sock));
+	int fd = vp_connect_raw(cb_sock, resp ? SP_SURVEYOR : SP_REQ, &l);
+	if (fd < 0)
+		vs_fail("harness:setup", "raw peer could not connect");
+	for (int i = 0; i < 2; i++)
+		VH_OK(nng_ctx_open(&cb_ctx[i], cb_sock));
+	memset(CB, 0, sizeof(CB));
+	for (int i = 0; i < 4; i++)
+		VH_OK(nng_aio_alloc(&CB[i].aio, cb_cb, (void *) (intptr_t) i));
+	uint8_t h1[4], h2[4];
+	vp_put32(h1, 0x80000001u);
+	vp_put32(h2, 0x80000002u);
+	// request 1 -> context 1, which answers with 2 MB that the peer does not read
+	nng_ctx_recv(cb_ctx[0], CB[0].aio);
+	vp_send(fd, h1, 4, "q1", 2);
+	vs_settle();
+	if (CB[0].ncb != 1 || CB[0].res != 0)
+		vs_fail("harness:setup", "context 1 did not get request 1");
+	nng_msg *m = nng_aio_get_msg(CB[0].aio);
+	nng_msg_clear(m);
+	VH_OK(nng_msg_realloc(m, 2u << 20));
+	nng_aio_set_msg(CB[0].aio, m);
+	nng_ctx_send(cb_ctx[0], CB[0].aio);
+	vs_settle();
+	// request 2 -> context 2, whose answer has to wait
+	nng_ctx_recv(cb_ctx[1], CB[1].aio);
+	vp_send(fd, h2, 4, "q2", 2);
+	vs_settle();
+	if (CB[1].ncb != 1 || CB[1].res != 0)
+		vs_fail("harness:setup", "context 2 did not get request 2");
+	m = nng_aio_get_msg(CB[1].aio);
+	nng_aio_set_msg(CB[2].aio, m);
+	nng_ctx_send(cb_ctx[1], CB[2].aio);
+	vs_settle();
+	nng_ctx_recv(cb_ctx[1], CB[3].aio);
+	vs_settle();
+	int both = nng_aio_busy(CB[2].aio) && nng_aio_busy(CB[3].aio);
+	int sendp = nng_aio_busy(CB[2].aio), recvp = nng_aio_busy(CB[3].aio);
+	pthread_t th;
+	vs_window(1);
+	pthread_create(&th, NULL, t_cb_closer, (void *) (intptr_t) what);
+	pthread_join(th, NULL);
+	vs_window(0);
+	vs_settle();
+	vs_sleep(100);
+	vs_settle();
+	static const char *ON[] = { "", "", "send", "receive" };
+	for (int i = 2; i < 4; i++) {
+		if ((i == 2 ? sendp : recvp) && (nng_aio_busy(CB[i].aio) || CB[i].ncb == 0))
+			vs_fail("C10:pending-after-close",
+			    "%s context with a waiting send and a pending receive: 100 ms after %s returned its %s "
+			    "is still pending",
+			    resp ? "RESPONDENT" : "REP", what ? "nng_socket_close" : "nng_ctx_close", ON[i]);
+		if (CB[i].ncb > 1)
+			vs_fail("C10:double-completion", "%s of the closed context completed %d times", ON[i],
+			    CB[i].ncb);
+		if ((i == 2 ? sendp : recvp) && CB[i].res == 0 && i == 3)
+			vs_fail("C10:pending-after-close", "receive on the closed context completed with success");
+	}
+	if (CB[2].res != 0 && nng_aio_get_msg(CB[2].aio) != NULL) {
+		nng_msg_free(nng_aio_get_msg(CB[2].aio)); // a failed send leaves the message with the caller
+		nng_aio_set_msg(CB[2].aio, NULL);
+	}
+	vs_outcome("%s %s both=%d send=%d recv=%d", resp ? "resp" : "rep", what ? "sock" : "ctx", both, CB[2].res,
+	    CB[3].res);
+	if (!what) { // the closed context is dead, its sibling still works as a handle
+		nng_duration dur;
+		int          rv = nng_ctx_get_ms(cb_ctx[1], NNG_OPT_RECVTIMEO, &dur);
+		if (rv != NNG_ECLOSED && rv != NNG_ENOENT)
+			vs_fail("C10:handle-alive", "option call on the closed context -> %d (%s)", rv, nng_strerror(rv));
+	}
+	close(fd);
+	if (!what)
+		nng_socket_close(cb_sock);
+	for (int i = 0; i < 4; i++)
+		nng_aio_free(CB[i].aio);
+	vh_fini();
+}
+
 int
 main(int argc, char **argv)
 {
@@ -924,6 +1037,21 @@ main(int argc, char **argv)
 					c.deadline_s         = T ? 60 : 6;
 					vx_explore(&c, NULL);
 				}
+	}
+	for (int r = 0; r < 2; r++) {
+		vx_cfg c;
+		memset(&c, 0, sizeof(c));
+		c.prop               = "C10";
+		c.scenario           = r ? "ctxboth-respondent" : "ctxboth-rep";
+		c.run                = run_ctxboth;
+		c.arg                = (void *) (intptr_t) r;
+		c.budget[VB_PREEMPT] = T ? 2 : 1;
+		c.budget[VB_SWITCH]  = T ? 2 : 1;
+		c.budget[VB_WAKE1]   = 1;
+		c.budget[VB_ENV]     = -1;
+		c.total              = T ? 2 : 1;
+		c.deadline_s         = T ? 120 : 20;
+		vx_explore(&c, NULL);
 	}
 	for (int p = 0; p < NP; p++) {
 		if (vx_time_left() < 15)
